@@ -1,5 +1,5 @@
 //@unit passthru
-//@props C03 C05 C02 C11 C15
+//@props C03 C05 C02 C11 C15 C19
 // U-passthru: real (namespaced) SVG takes the pass-through route (src/transform.rs):
 // is_real_svg against a spec function written from the property statement, process_events returns
 // the input events unchanged and touches nothing but `real_svg`, postprocess writes exactly the
@@ -56,6 +56,13 @@ pub uninterp spec fn all_events_of(el: SvgElement, ctx: TransformerContext) -> I
 #[verifier::external_body] pub struct Reader { _p: u8 }
 pub uninterp spec fn doc_of(r: Reader) -> InputList;
 
+/// the decoded character data of a text event / the content of a CDATA event (U-xmlsink: C19.content.decoded, C19.cdata.verbatim)
+pub uninterp spec fn text_of(ev: InputEvent) -> Option<Seq<char>>;
+pub uninterp spec fn cdata_of(ev: InputEvent) -> Option<Seq<char>>;
+/// s is the character data of one of the first n events, as the reader delivered it
+pub open spec fn content_of(evs: Seq<InputEvent>, n: int, s: Seq<char>) -> bool {
+    exists|k: int| 0 <= k < n && k < evs.len() && (text_of(#[trigger] evs[k]) == Some(s) || cdata_of(evs[k]) == Some(s))
+}
 pub open spec fn graphics_name(n: Seq<char>) -> bool {
     n == "circle"@ || n == "ellipse"@ || n == "image"@ || n == "line"@ || n == "path"@ || n == "polygon"@ || n == "polyline"@ || n == "rect"@ || n == "text"@ || n == "use"@ || n == "reuse"@
 }
@@ -111,8 +118,8 @@ impl OutputEvent {
     #[verifier::external_body] pub fn is_empty_elem(&self) -> (r: bool) ensures r == is_empty_event(*self) { unimplemented!() }
 }
 impl InputEvent {
-    #[verifier::external_body] pub fn text_string(&self) -> Option<String> { unimplemented!() }
-    #[verifier::external_body] pub fn cdata_string(&self) -> Option<String> { unimplemented!() }
+    #[verifier::external_body] pub fn text_string(&self) -> (r: Option<String>) ensures (match r { Some(s) => Some(s@), None => None }) == text_of(*self) { unimplemented!() }
+    #[verifier::external_body] pub fn cdata_string(&self) -> (r: Option<String>) ensures (match r { Some(s) => Some(s@), None => None }) == cdata_of(*self) { unimplemented!() }
 }
 impl OutputList {
     #[verifier::external_body] pub fn new() -> OutputList { unimplemented!() }
@@ -300,11 +307,19 @@ impl EventGen for Container {
 //@ replace[R-into] <<<events.push(OutputEvent::Start(new_el.clone()));>>> => <<<events.push(ev_start(new_el.clone()));>>>
 //@ replace[R-into] <<<(inner_events.into(), None)>>> => <<<(OutputList::from_input(inner_events), None)>>>
 //@ replace[R-into] <<<events.push(OutputEvent::End(self.0.name.clone()));>>> => <<<events.push(ev_end(self.0.name.clone()));>>>
+//@ replace[R-typeann] <<<let mut inner_text = None;>>> => <<<let mut inner_text: Option<String> = None;>>>
+//@ before <<<el.set_attr("text", text);>>>
+//@ | assert(content_of(inner_events.events@, inner_events.events@.len() as int, text@)); // element content promoted to the text attribute is one event's character data, verbatim @C19.content.promoted_verbatim
 //@ ensures
 //@ - self.0.name@ == "svg"@ && attr_of(self.0, "xmlns"@) == Some(svg_ns()) && self.0.inner_events_some(*old(context)) ==>
 //@     r is Ok && r->Ok_0.0 == into_output(all_events_of(self.0, *old(context))) && r->Ok_0.1 is None
 //@     && *final(context) == *old(context)     @@C03.nested.verbatim
 //@ - r is Ok && old(context).scope_stack.len() > 0 ==> final(context).scope_stack@ == old(context).scope_stack@     @@C15.container.bindings_restored
+//@ loop 1
+//@ iter it
+//@ invariant
+//@ - inner_events.events@ == it.history@.map(|i: int, e: &InputEvent| *e) + vstd::std_specs::iter::IteratorSpec::remaining(&it.iter).map(|i: int, e: &InputEvent| *e)
+//@ - inner_text is Some ==> content_of(inner_events.events@, it.index@, inner_text->Some_0@)     @@C19.content.promoted_verbatim
 //@end
 }
 } // verus!
